@@ -70,7 +70,9 @@ ASBUILT = {
   labels, row permutation of every table on top of shuffled labels, creation shuffle) for gas, water and heating nets, all
   components, tight solves, rtol 1e-7 (observed <= 5e-10). Not comparable (counted): a non-converged side, a pump /
   compressor without flow (no unique lift). **Found and fixed:** `t_outlet_k` written to the wrong pipes for unsorted indices
-  with different section counts.""",
+  with different section counts. **Open finding:** in Sector.NONE nets the start temperatures of interior nodes depend on the
+  order in which the component tables were created (section 6, last row; the twin that showed it is switched off because its
+  oracle could not be made sound in time).""",
 "C07": """* **As built (`props/c07.py`):** (a) 200 / 6000 random kernel batches with forced edge rows through all twin pairs
   (hydraulic incompressible / compressible, both Nikuradse variants, mean pressure, derived values, thermal steady-state and
   transient, grouped sums up to index 250 000 for int64 / int32 / uint32 index arrays, each engine also against a plain
@@ -176,7 +178,10 @@ ASBUILT = {
   reachability model with exactly the corresponding relaxation reproduces the tool's answer (smallest explaining set of
   {circ_pump_not_supply, t_grid_supply, fc_connects, pc_undirected}). **Found and fixed:** pi-valve edges to a node labelled
   like the pipe + missing junction nodes, ignored compressor arguments, supply by circulation pumps / t-only grids in
-  `unsupplied_junctions`. **Open findings:** flow controllers / consumers as edges, undirected pressure controllers.""",
+  `unsupplied_junctions`; AttributeError of `create_nxgraph` / `unsupplied_junctions` on nets without valve / ext_grid table; (through
+  the supply-pattern comparison) valves at pipe ends wired to the wrong pipes when the pipe table is not the first branch table.
+  15 % of the nets are Sector.NONE nets (only the tables of the created elements, in creation order).
+  **Open findings:** flow controllers / consumers as edges, undirected pressure controllers.""",
 "C19": """* **As built (`props/c19.py`):** data files re-read by the oracle for all 8 library fluids; shapes for scalar / ndarray / Series /
   length-1 queries; integral laws for all property classes incl. user-built ones; mixtures with 2-5 components (1-d and 2-d
   forms); library and user pumps (from lists and polynomials) with flows of both signs; all 285 standard pipe types - half of
